@@ -83,6 +83,17 @@ func init() {
 			// never framed can never complete a message)
 			return c == "DATACUT" || c == "BDATCUT" || (isTransferState(e) && e.Dst.Bdat == "none") || (c == "BDAT" && e.Lbl.Cmd.A == "badsize")
 		})
+		// the peer falls silent inside a message or a chunk (MC_Idle): a message that
+		// stopped arriving is no more complete than one that was cut
+		imc := modelCheck("MC_Idle", "MC_Idle.cfg", 8)
+		mc.Distinct += imc.Distinct
+		mc.Generated += imc.Generated
+		ist := tourSome(run, dumpEdges("MC_Idle", "Dump_Idle.cfg"), func(e *sessrep.Edge) bool {
+			return e.Lbl.Cmd.C == "DATASTALL" || (e.Lbl.Cmd.C == "BDATSTALL" && e.Lbl.Cmd.A != "refused")
+		})
+		st.Covered += ist.Covered
+		st.Edges += ist.Edges
+		st.Convs += ist.Convs
 		per, maxLen := 4, 10
 		if tier == "thorough" {
 			per, maxLen = 40, 16
